@@ -3,7 +3,6 @@
 package mc
 
 import (
-	"bytes"
 	"crypto/sha1"
 	"encoding/hex"
 	"encoding/json"
@@ -264,7 +263,18 @@ func Main() {
 			ck.WorkerInit()
 		}
 		res := runParts(ck, ctx)
-		enc := json.NewEncoder(os.Stdout)
+		// results go to a file: fox's default log handler (Logger/Recovery) writes to stdout/stderr
+		out := os.Stdout
+		if pth := os.Getenv("VERIF_OUT"); pth != "" {
+			f, err := os.Create(pth)
+			if err != nil {
+				fmt.Fprintln(os.Stderr, err)
+				os.Exit(2)
+			}
+			defer f.Close()
+			out = f
+		}
+		enc := json.NewEncoder(out)
 		if err := enc.Encode(res); err != nil {
 			fmt.Fprintln(os.Stderr, err)
 			os.Exit(2)
@@ -325,17 +335,23 @@ func parent(ck *Check, tier string, seed int64, verifDir string, workers int, bu
 			if ck.Serial {
 				gmp = "GOMAXPROCS=" + strconv.Itoa(runtime.NumCPU())
 			}
-			cmd.Env = append(os.Environ(), "VERIF_DEADLINE_UNIX="+strconv.FormatInt(deadline.Unix(), 10), gmp)
-			var stdout, stderr bytes.Buffer
-			cmd.Stdout = &stdout
-			cmd.Stderr = &stderr
+			outFile := filepath.Join(os.TempDir(), fmt.Sprintf("foxcheck-%d-%d.json", os.Getpid(), k))
+			defer os.Remove(outFile)
+			cmd.Env = append(os.Environ(), "VERIF_DEADLINE_UNIX="+strconv.FormatInt(deadline.Unix(), 10), gmp, "VERIF_OUT="+outFile)
+			stdout, stderr := &tailBuf{max: 1 << 16}, &tailBuf{max: 1 << 16}
+			cmd.Stdout = stdout
+			cmd.Stderr = stderr
 			err := cmd.Run()
 			if err != nil {
 				errs[k] = fmt.Sprintf("worker %d: %v\n%s", k, err, tail(stderr.String(), 4000))
 				return
 			}
+			raw, err := os.ReadFile(outFile)
 			var m map[string]*Result
-			if err := json.Unmarshal(stdout.Bytes(), &m); err != nil {
+			if err == nil {
+				err = json.Unmarshal(raw, &m)
+			}
+			if err != nil {
 				errs[k] = fmt.Sprintf("worker %d: bad output: %v\n%s\n%s", k, err, tail(stdout.String(), 2000), tail(stderr.String(), 2000))
 				return
 			}
@@ -574,3 +590,19 @@ func dedup(in []string) []string {
 	sort.Strings(out)
 	return out
 }
+
+// tailBuf keeps the last max bytes written to it.
+type tailBuf struct {
+	b   []byte
+	max int
+}
+
+func (t *tailBuf) Write(p []byte) (int, error) {
+	t.b = append(t.b, p...)
+	if len(t.b) > 2*t.max {
+		t.b = append([]byte{}, t.b[len(t.b)-t.max:]...)
+	}
+	return len(p), nil
+}
+
+func (t *tailBuf) String() string { return string(t.b) }
